@@ -14,45 +14,44 @@ open L0
 
 /-! ### hypotheses on the un-optimized grammar -/
 
-/-- well-formedness of the grammar the optimizer is given (see `NodeOK`, `NotPOK`) -/
-structure WF (F : Feat) (g : Grammar) : Prop where
-  nodes : ∀ r ∈ g.rules, AllN (NodeOK ⟨sigOf g, forced r⟩) r.body
-  /-- no grammar rule is called `SKIP` -/
-  noSkip : ∀ r ∈ g.rules, r.name ≠ "SKIP"
-  notp : F.skip = true → ∀ r ∈ g.rules, AllN (NotPOK g) r.body
+/-- well-formedness of the grammar the optimizer is given (see `NodeOK`); `OptS.wfCheck`
+    (OptHyps.lean) decides it -/
+structure WF (g : Grammar) : Prop where
+  nodes : ∀ r ∈ g.rules, AllN (NodeOK (sigOf g)) r.body
+  /-- no grammar rule called `SKIP` carries the modifier `SILENT+ATOMIC` by which `parse_trivia`
+      recognises the optimizer's fused rule (the front end gives a rule one modifier) -/
+  noFused : g.fusedSkip = none
+  /-- `SKIP` is not referenced unless the grammar defines it: the reference would be a `KeyError`
+      un-optimized and the fused trivia rule optimized -/
+  skipRef : g.lookup "SKIP" = none → ∀ r ∈ g.rules, NSR r.body
   /-- if WHITESPACE gets fused, none of its alternatives is the empty string (the un-optimized
       `parse_trivia` loop would never end on it, while the fused regex stops) -/
   wsProgress : ∀ wr es alts, g.lookup "COMMENT" = none → g.lookup "WHITESPACE" = some wr →
     wr.body = .choice es → Opt.squash 1000 es [] = some alts → ∀ s ci, Alt.lit s ci ∈ alts → s ≠ []
 
-theorem WF.lookup_skip {F : Feat} {g : Grammar} (h : WF F g) : g.lookup "SKIP" = none := by
+theorem any_skip_iff (g : Grammar) : g.rules.any (·.name == "SKIP") = false ↔ g.lookup "SKIP" = none := by
   unfold Grammar.lookup
-  rw [List.find?_eq_none]
-  intro x hx
-  have := h.noSkip x hx
-  simpa using this
-
-theorem WF.any_skip {F : Feat} {g : Grammar} (h : WF F g) : g.rules.any (·.name == "SKIP") = false := by
-  rw [List.any_eq_false]
-  intro x hx
-  have := h.noSkip x hx
-  simpa using this
-
-theorem WF.fused {F : Feat} {g : Grammar} (h : WF F g) : g.fusedSkip = none := by
-  unfold Grammar.fusedSkip; rw [h.lookup_skip]
+  rw [List.find?_eq_none, List.any_eq_false]
 
 /-! ### `_optimize_skip_rule` -/
 
 def skipRule (body : Expr) : Rule := { name := "SKIP", mod := SILENT + ATOMIC, body := body, kind := .grammar }
 
-theorem optSkip_cases (g : Grammar) (rules : List Rule) (hns : rules.any (·.name == "SKIP") = false) :
+theorem optSkip_cases (g : Grammar) (rules : List Rule) :
     Opt.optimizeSkipRule g rules = rules ∨
-    (∃ cr, rules.find? (·.name == "COMMENT") = some cr ∧ rules.find? (·.name == "WHITESPACE") = none ∧
+    (rules.any (·.name == "SKIP") = false ∧
+     ∃ cr, rules.find? (·.name == "COMMENT") = some cr ∧ rules.find? (·.name == "WHITESPACE") = none ∧
       hasBit cr.mod SILENT = true ∧ Opt.optimizeSkipRule g rules = rules ++ [skipRule (.rep cr.body)]) ∨
-    (∃ wr es alts, rules.find? (·.name == "COMMENT") = none ∧ rules.find? (·.name == "WHITESPACE") = some wr ∧
+    (rules.any (·.name == "SKIP") = false ∧
+     ∃ wr es alts, rules.find? (·.name == "COMMENT") = none ∧ rules.find? (·.name == "WHITESPACE") = some wr ∧
       hasBit wr.mod SILENT = true ∧ wr.body = .choice es ∧ Opt.squash 1000 es [] = some alts ∧
       Opt.isOrderPreserving g alts = true ∧
       Opt.optimizeSkipRule g rules = rules ++ [skipRule (.optChoice alts true)]) := by
+  by_cases hns : rules.any (·.name == "SKIP") = true
+  · left
+    unfold Opt.optimizeSkipRule
+    simp only [hns, ↓reduceIte]
+  have hns : rules.any (·.name == "SKIP") = false := by simpa using hns
   unfold Opt.optimizeSkipRule
   simp only [hns, Bool.false_eq_true, ↓reduceIte]
   cases hc : rules.find? (·.name == "COMMENT") with
@@ -63,7 +62,7 @@ theorem optSkip_cases (g : Grammar) (rules : List Rule) (hns : rules.any (·.nam
       dsimp only
       by_cases hs : hasBit cr.mod SILENT = true
       · rw [if_pos hs]
-        exact Or.inr (Or.inl ⟨cr, rfl, rfl, hs, rfl⟩)
+        exact Or.inr (Or.inl ⟨trivial, cr, rfl, rfl, hs, rfl⟩)
       · rw [if_neg hs]; exact Or.inl rfl
   | none =>
     cases hw : rules.find? (·.name == "WHITESPACE") with
@@ -81,7 +80,7 @@ theorem optSkip_cases (g : Grammar) (rules : List Rule) (hns : rules.any (·.nam
             dsimp only
             by_cases ho : Opt.isOrderPreserving g alts = true
             · rw [if_pos ho]
-              exact Or.inr (Or.inr ⟨wr, es, alts, rfl, rfl, hs, hb, hq, ho, rfl⟩)
+              exact Or.inr (Or.inr ⟨trivial, wr, es, alts, rfl, rfl, hs, hb, hq, ho, rfl⟩)
             · rw [if_neg ho]; exact Or.inl rfl
         | _ => exact Or.inl rfl
       · rw [if_neg hs]; exact Or.inl rfl
@@ -89,18 +88,21 @@ theorem optSkip_cases (g : Grammar) (rules : List Rule) (hns : rules.any (·.nam
 /-- the table with the fused rule appended -/
 def ext (g : Grammar) (body : Expr) : Grammar := { g with rules := g.rules ++ [skipRule body] }
 
+theorem lookup_ext_ne (g : Grammar) (body : Expr) (n : String) (hn : n ≠ "SKIP") :
+    (ext g body).lookup n = g.lookup n := by
+  unfold Grammar.lookup ext
+  simp only [List.find?_append]
+  have : [skipRule body].find? (fun x => x.name == n) = none := by
+    simp only [List.find?_cons, skipRule, List.find?_nil]
+    have : ("SKIP" == n) = false := by simpa using fun h => hn h.symm
+    rw [this]
+  rw [this, Option.or_none]
+
 theorem lookup_ext (g : Grammar) (body : Expr) (hns : g.lookup "SKIP" = none) :
     (∀ n, n ≠ "SKIP" → (ext g body).lookup n = g.lookup n) ∧
     (ext g body).lookup "SKIP" = some (skipRule body) := by
   constructor
-  · intro n hn
-    unfold Grammar.lookup ext
-    simp only [List.find?_append]
-    have : [skipRule body].find? (fun x => x.name == n) = none := by
-      simp only [List.find?_cons, skipRule, List.find?_nil]
-      have : ("SKIP" == n) = false := by simpa using fun h => hn h.symm
-      rw [this]
-    rw [this, Option.or_none]
+  · exact fun n hn => lookup_ext_ne g body n hn
   · unfold Grammar.lookup at hns ⊢
     unfold ext
     simp only [List.find?_append, hns, Option.none_or]
@@ -116,133 +118,137 @@ theorem sigOf_ext (g : Grammar) (body : Expr) (hns : g.lookup "SKIP" = none) (n 
     sigOf (ext g body) n = sigOf g n := by
   unfold sigOf; rw [(lookup_ext g body hns).1 n hn]
 
-theorem NodeOK_ext (g : Grammar) (body : Expr) (hns : g.lookup "SKIP" = none) {fa : Bool} (x : Expr)
-    (h : NodeOK ⟨sigOf g, fa⟩ x) : NodeOK ⟨sigOf (ext g body), fa⟩ x := by
+theorem NodeOK_ext (g : Grammar) (body : Expr) (hns : g.lookup "SKIP" = none) (x : Expr)
+    (h : NodeOK (sigOf g) x) (hx : NSK x) : NodeOK (sigOf (ext g body)) x := by
   cases x with
   | ident n t =>
     simp only [NodeOK] at h ⊢
-    refine ⟨h.1, h.2.1, ?_⟩
-    rw [sigOf_ext g body hns n h.2.1]
-    exact h.2.2
+    refine ⟨h.1, ?_⟩
+    rw [sigOf_ext g body hns n hx]
+    exact h.2
   | _ => exact h
+
+theorem AllN_NodeOK_ext (g : Grammar) (body : Expr) (hns : g.lookup "SKIP" = none) {e : Expr}
+    (h : AllN (NodeOK (sigOf g)) e) (hx : NSR e) : AllN (NodeOK (sigOf (ext g body))) e :=
+  AllN.imp3 (fun x h1 h2 => NodeOK_ext g body hns x h1.root h2.root) e h hx
 
 variable {F : Feat}
 
-/-- what the WHITESPACE case of the fusion has to provide (OptSoundSquash) -/
+/-- what the WHITESPACE case of the fusion has to provide (OptSoundFusionWS) -/
 def FusionWS (g : Grammar) : Prop :=
-  ∀ wr es alts, g.lookup "COMMENT" = none → g.lookup "WHITESPACE" = some wr → hasBit wr.mod SILENT = true →
+  g.lookup "SKIP" = none → ∀ wr es alts, g.lookup "COMMENT" = none → g.lookup "WHITESPACE" = some wr → hasBit wr.mod SILENT = true →
     wr.body = .choice es → Opt.squash 1000 es [] = some alts → Opt.isOrderPreserving g alts = true →
     (∀ inp n, (∀ e a, NSR e → SimAt inp (ext g (.optChoice alts true)) (run g inp n) a e e) →
       SkipSim g inp (ext g (.optChoice alts true)) (run g inp n) n) ∧
     (∀ inp n, (∀ e a, NSR e → SimAt inp g (run (ext g (.optChoice alts true)) inp n) a e e) →
       SkipSim (ext g (.optChoice alts true)) inp g (run (ext g (.optChoice alts true)) inp n) n)
 
-/-- what `skip` needs of the extended table (OptSoundSkip) -/
-def NPExt (F : Feat) (g : Grammar) : Prop :=
-  F.skip = true → ∀ body fa e, AllN (NodeOK ⟨sigOf g, fa⟩) e → AllN (NotPOK g) e →
-    AllN (NotPOK (ext g body)) e
-
-theorem NSR_of_nodeOK {sg : Cx} {e : Expr} (h : AllN (NodeOK sg) e) : NSR e :=
-  AllN.imp (fun x hx => by
-    cases x with
-    | ident n t => exact hx.2.1
-    | _ => trivial) h
-
-theorem Inv_ext {g : Grammar} (hwf : WF F g) (hnp : NPExt F g) (body : Expr)
-    (hb : AllN (NodeOK ⟨sigOf g, true⟩) body ∨ ∃ alts, body = .optChoice alts true)
-    (hbk : F.skip = true → AllN (NotPOK (ext g body)) body)
+theorem Inv_ext {g : Grammar} (hwf : WF g) (hns : g.lookup "SKIP" = none) (body : Expr)
+    (hb : (AllN (NodeOK (sigOf g)) body ∧ NSR body) ∨ ∃ alts, body = .optChoice alts true)
     (ht : totalBody body = true)
     (htriv : ¬(g.lookup "WHITESPACE" = none ∧ g.lookup "COMMENT" = none)) :
     Inv F (sigOf (ext g body)) (ext g body) := by
-  have hns := hwf.lookup_skip
-  refine ⟨fun _ => rfl, fun r hr => ?_, fun r hr hn => ?_, fun _ => ?_, fun r hr => ?_, fun hF r hr => ?_⟩
+  refine ⟨fun _ => rfl, fun r hr => ?_, fun _ => ?_, fun r hr => ?_⟩
   · simp only [ext, List.mem_append, List.mem_singleton] at hr
     rcases hr with hr | rfl
-    · exact Or.inl (AllN.imp (NodeOK_ext g body hns) (hwf.nodes r hr))
+    · exact Or.inl (AllN_NodeOK_ext g body hns (hwf.nodes r hr) (hwf.skipRef hns r hr))
     · rcases hb with hb | hb
-      · have hf : forced (skipRule body) = true := by
-          show ruleAtomic "SKIP" (SILENT + ATOMIC) false = true
-          decide
-        rw [hf]
-        exact Or.inl (AllN.imp (NodeOK_ext g body hns) hb)
-      · exact Or.inr ⟨rfl, hb⟩
-  · simp only [ext, List.mem_append, List.mem_singleton] at hr
-    rcases hr with hr | rfl
-    · exact absurd hn (hwf.noSkip r hr)
-    · show hasBit (SILENT + ATOMIC) ATOMIC = true
-      decide
+      · exact Or.inl (AllN_NodeOK_ext g body hns hb.1 hb.2)
+      · refine Or.inr ⟨?_, hb⟩
+        show hasBit (SILENT + ATOMIC) ATOMIC = true
+        decide
   · rw [(lookup_ext g body hns).1 _ (by decide), (lookup_ext g body hns).1 _ (by decide)]
     exact htriv
   · rw [fused_ext g body hns] at hr
     simp only [Option.some.injEq] at hr
     subst hr; exact ht
-  · simp only [ext, List.mem_append, List.mem_singleton] at hr
-    rcases hr with hr | rfl
-    · exact hnp hF body _ _ (hwf.nodes r hr) (hwf.notp hF r hr)
-    · exact hbk hF
 
-theorem Inv_same {g : Grammar} (hwf : WF F g) : Inv F (sigOf g) g :=
-  ⟨fun _ => rfl, fun r hr => Or.inl (hwf.nodes r hr), fun r hr hn => absurd hn (hwf.noSkip r hr),
-   fun h => absurd hwf.fused h, fun r hr => by rw [hwf.fused] at hr; exact absurd hr (by simp), hwf.notp⟩
+theorem Inv_same {g : Grammar} (hwf : WF g) : Inv F (sigOf g) g :=
+  ⟨fun _ => rfl, fun r hr => Or.inl (hwf.nodes r hr),
+   fun h => absurd hwf.noFused h, fun r hr => by rw [hwf.noFused] at hr; exact absurd hr (by simp)⟩
+
+/-- what `_optimize_skip_rule` does to a property of rule bodies -/
+theorem optSkip_kept (g : Grammar) (rules : List Rule) {P : Expr → Prop} (hpr : ∀ r ∈ rules, P r.body)
+    (hrep : ∀ e, P e → P (.rep e)) (hopt : ∀ alts, P (.optChoice alts true)) :
+    ∀ r ∈ Opt.optimizeSkipRule g rules, P r.body := by
+  rcases optSkip_cases g rules with h | ⟨_, cr, hc, _, _, h⟩ | ⟨_, wr, es, alts, _, _, _, _, _, _, h⟩
+  · rw [h]; exact hpr
+  · rw [h]
+    intro r hr
+    simp only [List.mem_append, List.mem_singleton] at hr
+    rcases hr with hr | rfl
+    · exact hpr r hr
+    · exact hrep _ (hpr cr (List.mem_of_find?_eq_some hc))
+  · rw [h]
+    intro r hr
+    simp only [List.mem_append, List.mem_singleton] at hr
+    rcases hr with hr | rfl
+    · exact hpr r hr
+    · exact hopt alts
 
 /-- the outcome of `_optimize_skip_rule` -/
-theorem fusion_sound {g : Grammar} (hwf : WF F g) (hws : FusionWS g) (hnp : NPExt F g) :
+theorem fusion_sound {g : Grammar} (hwf : WF g) (hws : FusionWS g) :
     ∃ sg, Inv F sg { g with rules := Opt.optimizeSkipRule g g.rules } ∧
-      ∀ inp e s r, NSR e → s.pos ≤ inp.size →
+      ∀ inp e s r, (g.lookup "SKIP" = none → NSR e) → s.pos ≤ inp.size →
         (Conv g inp e s r ↔ Conv { g with rules := Opt.optimizeSkipRule g g.rules } inp e s r) := by
-  have hns := hwf.lookup_skip
-  have hbodies : ∀ n r, g.lookup n = some r → NSR r.body :=
-    fun n r h => NSR_of_nodeOK (hwf.nodes r (lookup_mem h))
-  rcases optSkip_cases g g.rules hwf.any_skip with h | ⟨cr, hc, hw, hs, h⟩ | ⟨wr, es, alts, hc, hw, hs, hb, hq, ho, h⟩
+  rcases optSkip_cases g g.rules with h | ⟨hany, cr, hc, hw, hs, h⟩ | ⟨hany, wr, es, alts, hc, hw, hs, hb, hq, ho, h⟩
   · rw [h]
     exact ⟨sigOf g, Inv_same hwf, fun _ _ _ _ _ _ => Iff.rfl⟩
   · rw [h]
+    have hns := (any_skip_iff g).1 hany
+    have hbodies : ∀ n r, g.lookup n = some r → NSR r.body :=
+      fun n r h => hwf.skipRef hns r (lookup_mem h)
     have hcn : cr.name = "COMMENT" := by
       have := List.find?_some hc
       simpa using this
     have hmem : cr ∈ g.rules := List.mem_of_find?_eq_some hc
-    have hfc : forced cr = true := by
-      simp [forced, ruleAtomic, hcn, L1.isTriviaName]
-    have hcb : AllN (NodeOK ⟨sigOf g, true⟩) cr.body := hfc ▸ hwf.nodes cr hmem
-    refine ⟨_, Inv_ext hwf hnp (.rep cr.body) (Or.inl ⟨trivial, hcb⟩)
-      (fun hF => ⟨trivial, hnp hF _ _ _ (hwf.nodes cr hmem) (hwf.notp hF cr hmem)⟩) rfl (fun h => by
+    refine ⟨_, Inv_ext hwf hns (.rep cr.body)
+      (Or.inl ⟨⟨trivial, hwf.nodes cr hmem⟩, ⟨trivial, hwf.skipRef hns cr hmem⟩⟩) rfl (fun h => by
         have : g.lookup "COMMENT" = some cr := hc
         rw [this] at h; exact absurd h.2 (by simp)), ?_⟩
     intro inp e s r he hp
     have hl := lookup_ext g (.rep cr.body) hns
     exact ext_equiv (g := g) (g0 := ext g (.rep cr.body)) rfl hl.1 hbodies
-      (fun inp n ih => skipC_fwd inp hcn hs hwf.fused hw hc (fused_ext g _ hns) (run_AP g inp n)
+      (fun inp n ih => skipC_fwd inp hcn hs hwf.noFused hw hc (fused_ext g _ hns) (run_AP g inp n)
         (run_PB g inp n) n (ih _ _ (hbodies _ _ hc)))
-      (fun inp n ih => skipC_bwd inp hcn hs hwf.fused hw hc (fused_ext g _ hns) n (ih _ _ (hbodies _ _ hc)))
-      inp e he s r hp
+      (fun inp n ih => skipC_bwd inp hcn hs hwf.noFused hw hc (fused_ext g _ hns) n (ih _ _ (hbodies _ _ hc)))
+      inp e (he hns) s r hp
   · rw [h]
+    have hns := (any_skip_iff g).1 hany
+    have hbodies : ∀ n r, g.lookup n = some r → NSR r.body :=
+      fun n r h => hwf.skipRef hns r (lookup_mem h)
     have hmem : wr ∈ g.rules := List.mem_of_find?_eq_some hw
-    refine ⟨_, Inv_ext hwf hnp (.optChoice alts true) (Or.inr ⟨alts, rfl⟩) (fun _ => trivial) rfl (fun h => by
+    refine ⟨_, Inv_ext hwf hns (.optChoice alts true) (Or.inr ⟨alts, rfl⟩) rfl (fun h => by
         have : g.lookup "WHITESPACE" = some wr := hw
         rw [this] at h; exact absurd h.1 (by simp)), ?_⟩
     intro inp e s r he hp
     have hl := lookup_ext g (.optChoice alts true) hns
-    obtain ⟨f1, f2⟩ := hws wr es alts hc hw hs hb hq ho
-    exact ext_equiv (g := g) (g0 := ext g (.optChoice alts true)) rfl hl.1 hbodies f1 f2 inp e he s r hp
+    obtain ⟨f1, f2⟩ := hws hns wr es alts hc hw hs hb hq ho
+    exact ext_equiv (g := g) (g0 := ext g (.optChoice alts true)) rfl hl.1 hbodies f1 f2 inp e (he hns) s r hp
 
-/-- **`Opt.optimize`**, for a feature set whose matcher passes have been provided -/
-theorem optimize_sound_of {g g' : Grammar} (hwf : WF F g) (hws : FusionWS g) (hnp : NPExt F g)
+/-- **`Opt.optimize`**, for a feature set whose matcher passes have been provided; `P` is any
+    property of rule bodies that the rewrites keep -/
+theorem optimize_sound_of {g g' : Grammar} (hwf : WF g) (hws : FusionWS g)
     (B : ∀ sg, Builders F sg g) (passes : List Opt.Pass) (hp : ∀ p ∈ passes, Allowed F p)
+    {P : Expr → Prop} (hP : Kept F P) (hrep : ∀ e, P e → P (.rep e)) (hopt : ∀ alts, P (.optChoice alts true))
+    (hpr : ∀ r ∈ g.rules, P r.body)
     (h : Opt.optimize g passes = some g') :
-    (∀ inp e s r, NSR e → s.pos ≤ inp.size → (Conv g inp e s r ↔ Conv g' inp e s r)) ∧ SkipTotal g' := by
+    (∀ inp e s r, (g.lookup "SKIP" = none → NSR e) → s.pos ≤ inp.size →
+      (Conv g inp e s r ↔ Conv g' inp e s r)) ∧ SkipTotal g' ∧ (∀ r ∈ g'.rules, P r.body) := by
   unfold Opt.optimize at h
   simp only [Option.map_eq_some_iff] at h
   obtain ⟨rs, hfold, rfl⟩ := h
-  obtain ⟨sg, hinv0, heq0⟩ := fusion_sound hwf hws hnp
-  have := passes_sound (B sg) passes hp _ rs hinv0 hfold
-  refine ⟨fun inp e s r he hp => (heq0 inp e s r he hp).trans (this.1 inp e s r hp), this.2.total⟩
+  obtain ⟨sg, hinv0, heq0⟩ := fusion_sound (F := F) hwf hws
+  have := passes_sound (B sg) hP passes hp _ rs hinv0 (optSkip_kept g g.rules hpr hrep hopt) hfold
+  refine ⟨fun inp e s r he hp => (heq0 inp e s r he hp).trans (this.1 inp e s r hp), this.2.1.total, this.2.2⟩
 
-/-- the start rule is a rule of the grammar, so not `SKIP` -/
-theorem NSR_start {g : Grammar} (hwf : WF F g) {start : String} (hs : g.lookup start ≠ none) :
-    NSR (.ident start none) := by
+/-- the start rule is a rule of the grammar, so not the fused `SKIP` -/
+theorem NSR_start {g : Grammar} {start : String} (hs : g.lookup start ≠ none) :
+    g.lookup "SKIP" = none → NSR (.ident start none) := by
+  intro hns
   show start ≠ "SKIP"
   intro h
-  rw [h, hwf.lookup_skip] at hs
+  rw [h, hns] at hs
   exact hs rfl
 
 end OptS
